@@ -1,0 +1,27 @@
+//go:build verif
+
+// Package verifhook provides yield points for the external verification harness.
+// With the `verif` build tag a function may be installed that observes (and may block at)
+// every yield point; with no function installed Yield returns immediately.
+package verifhook
+
+import "sync/atomic"
+
+var installed atomic.Pointer[func(point string, who any, n int64)]
+
+// Install sets (or, with nil, removes) the function called at every yield point.
+func Install(f func(point string, who any, n int64)) {
+	if f == nil {
+		installed.Store(nil)
+		return
+	}
+	installed.Store(&f)
+}
+
+// Yield marks a scheduling/observation point: `point` names it, `who` identifies the object
+// (pool, runner, ...) and `n` carries one cheap scalar.
+func Yield(point string, who any, n int64) {
+	if f := installed.Load(); f != nil {
+		(*f)(point, who, n)
+	}
+}
